@@ -98,7 +98,7 @@ def run_checks(pid, props, shard=60, timeout=900, tag='trans'):
       fh.write(PRELUDE)
       fh.write('Goal True.\nidtac "@@BEGIN".\n')
       for i in ids:
-        fh.write('trans_check %d%%nat %s.\n' % (i, props[i]))
+        fh.write('trans_check %d%%Z %s.\n' % (i, props[i]))
       fh.write('idtac "@@END".\nexact I.\nQed.\n')
     procs.append((k, path, ids))
   failing, err = [], None
@@ -123,10 +123,14 @@ def run_checks(pid, props, shard=60, timeout=900, tag='trans'):
     if rc != 0 or '@@BEGIN' not in out or '@@END' not in out:
       err = err or ('coqc failed on %s: %s' % (os.path.basename(path), core.first_error(out)))
       continue
-    ok = {int(m) for m in re.findall(r'TRANS-OK (\d+)%nat', out)}
-    bad = {int(m) for m in re.findall(r'TRANS-FAIL (\d+)%nat', out)}
+    ok = {int(m) for m in re.findall(r'TRANS-OK (\d+)%Z', out)}
+    bad = {int(m) for m in re.findall(r'TRANS-FAIL (\d+)%Z', out)}
     if ok | bad != set(ids):
       err = err or ('incomplete output for %s' % os.path.basename(path))
+      if os.environ.get('TRANS_KEEP'):
+        import shutil
+        shutil.copy(path, os.environ['TRANS_KEEP'])
+        open(os.path.join(os.environ['TRANS_KEEP'], os.path.basename(path) + '.out'), 'w').write(out)
     failing += sorted(bad | (set(ids) - ok))
     for ext in ('.v', '.vo', '.vok', '.vos', '.glob'):
       try:
